@@ -38,18 +38,35 @@ TEXT = {
   "text": "Kernel-checked: the write plan of a commit / rollback is ONE leveldb batch whose effect is exactly the manager "
           "model's state transition (add_plan_effect, pop_plan_effect), hence after any number of completed writes the disk "
           "is the state before or after (crash_atomic_*), and re-delivery from either state reaches the crash-free state; "
-          "negative witness for the per-key plan (finding F6, fixed). Tied to the code without call-site hooks: the journal "
+          "negative witness for the per-key plan (finding F6, fixed). One level down (C08Journal, model of goleveldb's log "
+          "format - 32 KiB blocks, 7-byte chunk headers, FULL/FIRST/MIDDLE/LAST, zero padding of block trailers - and of its "
+          "non-strict reader, for every block size 8..65542 and every checksum function): reader after writer is the identity "
+          "(recover_encode); EVERY byte prefix of a journal is read back as exactly the write calls whose record ends inside "
+          "it, in order, nothing of the torn one (recover_truncate_exact); hence a commit / rollback interrupted at any BYTE "
+          "leaves the state before or after (crash_atomic_add_bytes / _pop_bytes, via replay_truncate: byte granularity = "
+          "write-call granularity); zeros behind the cut change nothing when the checksum rejects the one torn chunk "
+          "(recover_zero_tail; unconditional behind a complete journal: recover_zero_padded); negative witness "
+          "strict_reader_refuses_torn_tail: with opt.StrictJournal the torn two-block record makes the reader refuse the "
+          "journal (seeded change C08-r2-1). Tied to the code without call-site hooks: the journal "
           "of the live database gives the real write sequence, which is compared with the model's plan, and every cut point "
           "is materialised as a crash image and checked - between two writes, and inside one write (the journal record of a "
           "commit reaches the file in 32 KiB blocks, one system call each: images cut at the block boundaries inside the "
           "record, inside chunks and chunk headers, at arbitrary offsets, with zero / arbitrary tails); every image is "
-          "opened by the real NewLevelDBManager first, as a restarting node does.",
+          "opened by the real NewLevelDBManager first, as a restarting node does. The journal model itself is replayed on "
+          "real journal files (live ones and ones written by goleveldb's journal.Writer at the corners of the format) "
+          "against goleveldb's own journal.Reader - non-strict and strict - and against the harness parser, for whole files, "
+          "cuts and cuts with zero / arbitrary tails, with the real CRC-32C computed in Lean; re-encoding the recovered records "
+          "must give the file byte for byte.",
   "design_ref": "§3 C08",
-  "note": "leveldb's batch atomicity is trusted; its journal recovery is executed for real on every torn image (the node "
-          "must reopen and find the state before), not modelled; fsync/power-loss durability is out of scope "
-          "(the property speaks of process death).",
-  "technique": "Lean 4 proof about the write plan + journal-derived crash images (fault enumeration at every write boundary "
-               "and at the system-call boundaries inside a write)",
+  "note": "Trusted: goleveldb writes one journal record per write call and replays a delivered record as one batch; its "
+          "journal.go implements the format as modelled (checked on real files, not proved about the Go source); the OS keeps "
+          "the written prefix of a file across a process death. The zero-tail theorem assumes the checksum rejects the torn "
+          "chunk; arbitrary bytes behind a cut and corruption inside a journal are outside the theorems (model compared with "
+          "goleveldb on such images). Commits above the 4 MiB write buffer bypass the journal (end points only). "
+          "fsync/power-loss durability is out of scope (the property speaks of process death).",
+  "technique": "Lean 4 proof about the write plan and about the journal format/reader (byte-level truncation theorem) + "
+               "journal-derived crash images (fault enumeration at every write boundary and at the system-call boundaries "
+               "inside a write) + differential replay of the journal model against goleveldb's reader/writer on real bytes",
  },
  "C10": {
   "text": "Per contract a Lean state machine that follows the Go ReceiveBlock code; kernel-checked: the sum of recorded "
